@@ -255,6 +255,22 @@ func TestVerifC19Scraper(t *testing.T) {
 				acc += int64(n)
 			}
 		}
+		if kind == 0 {
+			// observation (not part of the property's equation, see NOTES.md): scraped_metric_points is
+			// incremented by MetricCount(), not by the number of data points
+			var pts, mets int64
+			for _, o := range ops {
+				for _, r := range o.res {
+					if r.errKind != 2 {
+						pts += int64(r.items())
+						mets += int64(len(r.perMetric))
+					}
+				}
+			}
+			if got.vec[6] == mets && mets != pts {
+				out.Stat("scraped_metric_points_counts_metrics_not_points", 1)
+			}
+		}
 		own := 2 // index of accepted_metric_points
 		if kind == 1 {
 			own = 4
